@@ -17,7 +17,7 @@ _NP = {
 
 
 def _key(q):
-    return (frozenset(q.n.t.items()), tuple(sorted((hash(a), e) for a, e in q.d.items())))
+    return q.key()
 
 
 def apply(name, x):
